@@ -447,8 +447,10 @@ func reifyValue(
 			return reflect.Value{}, raiseKeyInvalidTypeUnpack(baseType, sub)
 		}
 
+		// the new map is filled and validated like a map field that is not
+		// behind a pointer (with the validators of the field)
 		newMap := reflect.MakeMap(baseType)
-		if err := reifyInto(opts.opts, newMap, sub); err != nil {
+		if err := reifyMap(opts.opts, newMap, sub, opts.validators); err != nil {
 			return reflect.Value{}, err
 		}
 		return pointerize(t, baseType, newMap), nil
